@@ -244,12 +244,12 @@ Proof. vm_compute. repeat split; reflexivity. Qed.
    every table empty). *)
 Example monitor_holds_on_demo :
   let r := run (init cfg0 1000) demo_events in
-  p_inv 2000 false (obs_of (fst r) (snd r)) = ""%string.
+  p_inv 2000 [] (obs_of (fst r) (snd r)) = ""%string.
 Proof. vm_compute. reflexivity. Qed.
 
 Example demo_end_leaves_nothing :
   let r := run (init cfg0 1000) demo_events_end in
   st_clients (fst r) = [] /\ st_sessions (fst r) = [] /\ st_pool (fst r) = [] /\ st_threads (fst r) = []
   /\ balance 1 true (snd r) = 0%Z /\ balance 1 false (snd r) = 0%Z
-  /\ p_inv 2000 false (obs_of (fst r) (snd r)) = ""%string.
+  /\ p_inv 2000 [] (obs_of (fst r) (snd r)) = ""%string.
 Proof. vm_compute. repeat split; reflexivity. Qed.
